@@ -3,6 +3,7 @@ package vc
 import (
 	"fmt"
 	"io"
+	"os"
 	"sort"
 
 	"golang.org/x/tools/go/ssa"
@@ -73,6 +74,14 @@ func DumpCalls(e *Engine, fn *ssa.Function, w io.Writer) {
 				op = " op=" + op
 			}
 			fmt.Fprintf(w, "  %-6s %-50s%s  [%s]  %s\n", kind, name, op, how, e.Fset.Position(ins.Pos()))
+			if os.Getenv("GOVC_DUMP_MODSET") != "" && callee != nil && e.fnInModule(callee) {
+				var ks []string
+				for k := range e.ModSet(callee) {
+					ks = append(ks, k)
+				}
+				sort.Strings(ks)
+				fmt.Fprintf(w, "         modset(%d): %v\n", len(ks), ks)
+			}
 		}
 	}
 }
